@@ -2,6 +2,7 @@ package main
 
 import (
 	"context"
+	"fmt"
 	"net/http"
 	"net/http/httptest"
 	"net/url"
@@ -71,9 +72,11 @@ type pageData struct {
 
 func (d pageData) searchResult() *zoekt.SearchResult {
 	v := d.v
-	line := []byte(v("line-pre") + "NEEDLE" + v("line-mid") + "NEEDLE" + v("line-post"))
+	// the first match *is* the value (a query can match any text), the second is a fixed word
+	line := []byte(v("line-pre") + v("line-match") + v("line-mid") + "NEEDLE" + v("line-post"))
 	l1 := len(v("line-pre"))
-	l2 := l1 + 6 + len(v("line-mid"))
+	m1 := len(v("line-match"))
+	l2 := l1 + m1 + len(v("line-mid"))
 	mkFile := func(repo, name string, sum byte) zoekt.FileMatch {
 		return zoekt.FileMatch{
 			FileName: name, Repository: repo, Language: v("language"), Debug: v("file-debug"),
@@ -81,7 +84,7 @@ func (d pageData) searchResult() *zoekt.SearchResult {
 			LineMatches: []zoekt.LineMatch{
 				{
 					Line: line, LineNumber: 7, Before: []byte(v("before")), After: []byte(v("after")), DebugScore: v("line-debug"),
-					LineFragments: []zoekt.LineFragmentMatch{{LineOffset: l1, MatchLength: 6}, {LineOffset: l2, MatchLength: 6}},
+					LineFragments: []zoekt.LineFragmentMatch{{LineOffset: l1, MatchLength: m1}, {LineOffset: l2, MatchLength: 6}},
 				},
 				{Line: []byte("NEEDLE"), LineNumber: 9, LineFragments: []zoekt.LineFragmentMatch{{LineOffset: 0, MatchLength: 6}}},
 				{Line: []byte(v("line-pre")), LineNumber: 11, FileName: true},
@@ -146,9 +149,14 @@ type rendered struct {
 	body   []byte
 }
 
-func get(mux *http.ServeMux, path string, params url.Values) rendered {
+func get(mux *http.ServeMux, path string, params url.Values) (out rendered) {
 	req := httptest.NewRequest("GET", path+"?"+params.Encode(), nil)
 	rec := httptest.NewRecorder()
+	defer func() {
+		if r := recover(); r != nil { // net/http would abort the connection: the page is not rendered
+			out = rendered{status: 500, ctype: "text/plain", nosniff: true, body: []byte(fmt.Sprintf("handler panic: %v", r))}
+		}
+	}()
 	mux.ServeHTTP(rec, req)
 	return rendered{status: rec.Code, ctype: rec.Header().Get("Content-Type"), nosniff: rec.Header().Get("X-Content-Type-Options") == "nosniff", body: rec.Body.Bytes()}
 }
